@@ -52,5 +52,6 @@ fn main() {
         "C04" => c04,
         "C05" => c05,
         "C06" => c06,
+        "C07" => c07,
     );
 }
